@@ -276,6 +276,15 @@ def run_case(case, res):
                     if isinstance(r, list):
                         r.clear()
                         res.count("results_emptied_by_caller")
+            for absent in ("zz-absent-1", 987001):
+                r = attempt(lambda: t.find_all(absent))
+                if isinstance(r, list) and not r:
+                    r.extend(order[:2])  # the caller collects other things in the (empty) list it was given
+                    res.count("empty_results_extended_by_caller")
+                    r2 = attempt(lambda: t.find_all("zz-absent-2"))
+                    r3 = attempt(lambda: t.find_all(data_id="zz-absent-3"))
+                    if r2 != [] or r3 != []:
+                        bad.append(f"after the caller extended an empty result, lookups without a match return {r2!r} / {r3!r}")
             # ---- index access -----------------------------------------------------
             keys = []
             for x in order:
@@ -309,6 +318,21 @@ def run_case(case, res):
                 gotin = attempt(lambda: key in t)
                 if gotin is not expin:
                     bad.append(f"{key!r} in tree: got {gotin!r}, expected {expin!r}")
+            # unhashable data objects (dicts) on a tree with an id hook: the object itself is a key like any other
+            from nutree import Tree as _HT
+
+            ht = _HT("hook", calc_data_id=lambda tree, d: d["k"] if isinstance(d, dict) else hash(d))
+            recs = [{"k": f"rec{i}", "payload": [i]} for i in range(4)]
+            hn = [ht.add(recs[0]), ht.add(recs[1])]
+            hn.append(hn[0].add(recs[2]))
+            hn.append(hn[1].add(recs[2]))  # a clone
+            for rec, exp in ((recs[0], hn[0]), (recs[1], hn[1]), (recs[2], ("EXC", "AmbiguousMatchError")), (recs[3], ("EXC", "KeyError"))):
+                got = attempt(lambda: ht[rec])
+                res.count("getitem:unhashable_data")
+                if (got is not exp) if not isinstance(exp, tuple) else (got != exp):
+                    bad.append(f"tree[<dict record {rec['k']}>] on a tree with an id hook: got {got!r}, expected {exp!r}")
+                if attempt(lambda: rec in ht) is not (not isinstance(exp, tuple) or exp[1] == "AmbiguousMatchError"):
+                    bad.append(f"<dict record {rec['k']}> in tree: wrong answer")
             if order:
                 got = attempt(lambda: t[order[0]])
                 if got != ("EXC", "ValueError"):
